@@ -1716,7 +1716,7 @@ class SequenceOfAndSetOfBase(base.ConstructedAsn1Type):
 
     def sort(self, key=None, reverse=False):
         self._componentValues = dict(
-            enumerate(sorted(self._componentValues.values(),
+            enumerate(sorted(self.components,
                              key=key, reverse=reverse)))
 
     def __len__(self):
